@@ -59,7 +59,7 @@ def status_table(prog, chk, rule, name):
 
 
 def run(prog, chk):
-    prepare_request_tables(prog, chk)
+    chk.defer(prepare_request_tables, prog, chk)
     chk.explanation = (
         "(R1) KSI_Signature_signAggregatedWithPolicy stores *signature only after: request created from the caller's hash and level, "
         "perform, authenticated response (C06), request-id match against the request that was sent, status conversion inside "
